@@ -6,3 +6,11 @@
     //@   dropattr #[derive
     //@ item src/logger_handle.rs struct WritersHandle
     //@   dropattr #[derive
+
+    impl LoggerHandle {
+        /// the specification lock content after the verified call (prelude/sync.rs, A11)
+        pub closed spec fn active_after(&self) -> LogSpecification { *lock_after(&*self.writers_handle.spec) }
+    }
+    impl WritersHandle {
+        pub closed spec fn active_after(&self) -> LogSpecification { *lock_after(&*self.spec) }
+    }
